@@ -6,7 +6,10 @@ from vlib import Report, tlc, vh, vh_to_file, trace_validate, workdir, log, Infr
 
 FULL_C08 = {"MiEncodePayload", "header CBOR", "colliding header names serialised", "signed message", "Signature header text",
             "signature does not verify over the specified message", "header integrity", "file layout"}
-FULL_C02 = {"write limits", "read back", "signer refused", "MiEncodePayload"}      # the payload the round trip must return is the one given to the library
+# the payload the round trip must return is the one given to the library; and "verifies at every instant of [date, expires]" needs, before
+# anything else, that the signature the library made IS a signature over the exchange's message (the verify obligations of FullFailures
+# compare the real verdict with Accept of the artefact as produced, which is rightly "no" for an artefact whose signature is wrong)
+FULL_C02 = {"write limits", "read back", "signer refused", "MiEncodePayload", "signature does not verify over the specified message"}
 
 
 def txt(a):
